@@ -260,38 +260,46 @@ def r4_rewrite_impls(ctx, F):
             m = re.match(r'^(\w+): checker::rewrite::Rewrite<', w)
             if m:
                 bounded.add(m.group(1))
-        bodies = bodies_with_closures(F, body)
+        # read in normal form (A12): `iter().map(|x| x.rewrite(plan)).collect()`, a `for` loop with push and a
+        # local closure are the same thing; what is rewritten is found by following each rewrite call's
+        # operand back to the field of `self` it was taken (or iterated) from
+        from taint import origin_vals
+        nb = F.norm(body)
+        bodies = bodies_with_closures(F, nb)
         rewritten = set()   # (variant, field)
 
-        def mark(x, v):
-            ob, ov = outer_val(F, x, v)
-            if ov.kind == 'arg' and ov.key == 1:
-                var = None
-                for p in ov.projs:
-                    if p.startswith('as '):
-                        var = p[3:]
-                    elif p.startswith('.'):
-                        rewritten.add((var, p[1:]))
-                        return
-                rewritten.add((None, '*'))  # the whole value is iterated / rewritten
+        def root_field(x, v, depth=0):
+            v = noref(v)
+            if depth > 12:
+                return None
+            if v.kind == 'arg':
+                ob, ov = outer_val(F, x, v)
+                if ov.kind == 'arg' and ov.key == 1:
+                    var = None
+                    for p_ in ov.projs:
+                        if p_.startswith('as '):
+                            var = p_[3:]
+                        elif p_.startswith('.'):
+                            return (var, p_[1:])
+                    return (None, '*')   # the whole value is iterated / rewritten
+                return None
+            if v.kind == 'call':
+                c_ = x.call_at(v.key)
+                if c_ is not None and c_.args and c_.args[0].get('k') in ('copy', 'move'):
+                    for v2 in origin_vals(x, c_.args[0]):
+                        r_ = root_field(x, v2, depth + 1)
+                        if r_ is not None:
+                            return r_
+            return None
         for x in bodies:
             for c in x.calls:
                 if c.decl == 'checker::rewrite::Rewrite::rewrite' or c.is_('RewritePlan::rewrite', 'RewritePlan::reindex'):
-                    for a in c.args[:2]:
-                        if a['k'] in ('copy', 'move'):
-                            mark(x, x.val(a))
-                if c.is_('Iterator::map', 'Iterator::for_each', 'Option::map', 'Iterator::flat_map', 'Iterator::filter_map'):
-                    cv = x.val(c.args[1])
-                    if cv.kind == 'agg' and cv.key[0] == 'closure':
-                        cl = F.bodies.get(cv.key[1])
-                        inner = [cl] + F.closures_under(cl) if cl is not None else []
-                        if any(cc.decl == 'checker::rewrite::Rewrite::rewrite' for y in inner for cc in y.calls):
-                            src = x.trace(x.val(c.args[0]), ('Deref::deref', 'IntoIterator::into_iter', 'HashMap::iter',
-                                                             'HashSet::iter', 'slice::iter', 'Vec::iter',
-                                                             'BTreeMap::iter', 'VecDeque::iter', 'Option::as_ref',
-                                                             'DenseNatMap::iter', 'Iterator::enumerate',
-                                                             'DenseNatMap::values', 'Network::iter_all'))
-                            mark(x, src)
+                    for a_ in c.args[:2]:
+                        if a_['k'] in ('copy', 'move'):
+                            for v_ in origin_vals(x, a_):
+                                rf = root_field(x, v_)
+                                if rf is not None:
+                                    rewritten.add(rf)
         for var in adt['variants']:
             for f in var['fields']:
                 def pred(nd):
@@ -317,19 +325,28 @@ def r5_densenatmap(ctx, F):
     rule = 'C10-R5'
     b = F.one_body(r'^<util::densenatmap::DenseNatMap<K, V> as checker::rewrite::Rewrite<\w+>>::rewrite$', 'DenseNatMap::rewrite')
     ctx.touched(b)
-    col = b.calls_to('Iterator::collect')
+    # normal form (A12): a `map(|(k, v)| (k.rewrite(plan), v.rewrite(plan))).collect()` chain, a `for` loop that
+    # pushes the pairs and collects them afterwards, or a local closure are read alike
+    from taint import origins
+    nb = F.norm(b)
+    rw = [c for c in nb.calls if c.decl == 'checker::rewrite::Rewrite::rewrite' or c.is_('RewritePlan::rewrite')]
+    heads = [c for c in nb.calls_to('Iterator::next') if nb.in_cycle(c.bb)]
+
+    def comp_of(c):
+        """which component (0 = key, 1 = value) of the iterated (k, v) element the rewrite call works on"""
+        for o in origins(nb, c.args[0]):
+            if isinstance(o, tuple) and o[0] == 'proj' and o[1] in heads and o[2][:2] == ('Some', '0') and len(o[2]) >= 3:
+                return o[2][2]
+        return None
     ok = False
-    if len(col) == 1:
-        # the element type collected is a (K, V) pair: the closure returns a 2-tuple
-        mp = b.call_at(noref(b.val(col[0].args[0])).key) if noref(b.val(col[0].args[0])).kind == 'call' else None
-        if mp is not None and mp.is_('Iterator::map'):
-            cv = b.val(mp.args[1])
-            cl = F.bodies.get(cv.key[1]) if cv.kind == 'agg' and cv.key[0] == 'closure' else None
-            if cl is not None:
-                rets = [st for (i, si, st) in cl.assigns(lambda st: st['lhs']['l'] == 0 and not st['lhs']['p'])]
-                ok = any(st['rv']['k'] == 'agg' and st['rv']['agg'] == 'tuple' and len(st['rv']['ops']) == 2 for st in rets)
-                rw = [c for c in cl.calls if c.decl == 'checker::rewrite::Rewrite::rewrite' or c.is_('RewritePlan::rewrite')]
-                ok = ok and len(rw) >= 2
+    for (i, si, st) in nb.assigns(lambda st: st['rv']['k'] == 'agg' and st['rv'].get('agg') == 'tuple' and
+                                  len(st['rv']['ops']) == 2):
+        o0, o1 = origins(nb, st['rv']['ops'][0]), origins(nb, st['rv']['ops'][1])
+        if len(o0) == 1 and len(o1) == 1:
+            c0, c1 = next(iter(o0)), next(iter(o1))
+            if c0 in rw and c1 in rw and comp_of(c0) == '0' and comp_of(c1) == '1':
+                ok = True
+    ok = ok and bool(nb.calls_to('Iterator::collect', 'FromIterator::from_iter'))
     ctx.check(ok, rule, 'rekeyed-collect', b,
               good='DenseNatMap::rewrite maps each (k, v) to (rewritten k, rewritten v) and collects pairs '
                    '(the pair FromIterator re-sorts by key)',
